@@ -178,6 +178,9 @@ func (x *Exec) applyContract(st *State, fr *Frame, site ssa.Instruction, c *Cont
 		for _, en := range c.Ensures {
 			s.assume(x.quantifyForalls(e2, c, unbound, qreq, en))
 		}
+		for _, en := range c.EnsuresA {
+			s.assume(e2.hyp(en))
+		}
 		kn(s, res)
 	}
 	panicPath := func(s *State) {
@@ -259,6 +262,10 @@ func (x *Exec) quantifyForalls(env *CEnv, c *Contract, unbound []ParamSpec, qreq
 // havocModifies replaces the heap arrays named by a modifies list.
 func (x *Exec) havocModifies(st *State, c *Contract, items []string, env *CEnv) {
 	for _, it := range items {
+		if strings.HasPrefix(strings.TrimSpace(it), "slice ") {
+			x.havocSlice(st, c, strings.TrimSpace(strings.TrimPrefix(strings.TrimSpace(it), "slice ")), env)
+			continue
+		}
 		if strings.TrimSpace(it) == "all" {
 			keep := map[string]Tm{}
 			for _, pr := range c.Preserves {
@@ -310,6 +317,13 @@ func (x *Exec) modifiesKeys(st *State, pkg, item string) []heapKey {
 				}
 			}
 			out = append(out, heapKey{k, st.sorts[k]})
+		}
+		return out
+	case strings.HasPrefix(item, "slice "):
+		// over-approximation when no environment is at hand (loop frames): the byte heap
+		t := types.Typ[types.Uint8]
+		for _, l := range m.leaves(t) {
+			out = append(out, heapKey{elemKey(t) + "|" + l.path, ArrOf(SInt, ArrOf(m.idx(), l.sort))})
 		}
 		return out
 	case strings.HasPrefix(item, "ghost "):
@@ -377,6 +391,11 @@ func (x *Exec) invoke(st *State, fr *Frame, site ssa.Instruction, cc *ssa.CallCo
 		return
 	}
 	key := ifaceMethodKey(cc.Method)
+	if im, ok := ifaceModels[key]; ok {
+		if im(x, st, fr, site, recv, args, kn, kp) {
+			return
+		}
+	}
 	c := x.cs.Funcs[key]
 	if c == nil {
 		engineErr("no contract for interface method %s (called from %s)", key, fr.fn)
@@ -973,4 +992,30 @@ func (x *Exec) pureParamApp(st *State, fn *ssa.Function, name string, fnv *Val, 
 		res = append(res, st.m.build(rs.At(i).Type(), ts))
 	}
 	return res
+}
+
+// havocSlice: "modifies slice <e>": only the elements e[0..len(e)) of e's backing array change.
+func (x *Exec) havocSlice(st *State, c *Contract, src string, env *CEnv) {
+	cl, err := parseClause(src, c.File, c.Line, false)
+	if err != nil {
+		engineErr("%v", err)
+	}
+	v := env.eval(cl.Expr)
+	if v.K != KSlice {
+		engineErr("modifies slice %s: not a slice", src)
+	}
+	m := st.m
+	et := v.T.Underlying().(*types.Slice).Elem()
+	for _, l := range m.leaves(et) {
+		key := elemKey(et) + "|" + l.path
+		inner := ArrOf(m.idx(), l.sort)
+		h := st.heapGet(key, ArrOf(SInt, inner))
+		old := sel(h, v.arr(), inner)
+		na := st.declare("sl", inner)
+		i := Tm{freshName("i"), m.idx()}
+		inR := and(m.le(v.off(), i), m.lt(i, m.add(v.off(), v.ln())))
+		st.assume(tm(SBool, "(forall ((%s %s)) (! (=> (not %s) (= (select %s %s) (select %s %s))) :pattern ((select %s %s))))",
+			i.S, m.idx(), inR.S, na.S, i.S, old.S, i.S, na.S, i.S))
+		st.heapSet(key, store(h, v.arr(), na))
+	}
 }
